@@ -40,6 +40,7 @@ type Case struct {
 const (
 	d1, d2, leaf = "/w/d1", "/w/d1/d2", "/w/d1/d2/f"
 	e1           = "/w/e1"
+	tgt          = "/w/e1/t" // an existing file in the second directory (rename/link targets, sticky rules)
 )
 
 // classOf: which permission class of the node applies to the actor.
@@ -77,7 +78,9 @@ func runCase(c *vt.Ctx, kt *kernel.Thread, cs Case) *vt.Deviation {
 	}
 	for _, n := range cs.Nodes {
 		var ops []fsx.Op
-		if n.Kind == "d" {
+		if n.Path == "/" {
+			// the root itself: only its owner and mode are set
+		} else if n.Kind == "d" {
 			ops = append(ops, fsx.Op{K: "Mkdir", P: n.Path, Perm: 0o777})
 		} else {
 			ops = append(ops, fsx.Op{K: "WriteFile", P: n.Path, Data: "data", Perm: 0o666})
@@ -249,6 +252,9 @@ func calls() []fsx.Op {
 		{K: "RemoveAll", P: d2}, {K: "RemoveAll", P: d1}, {K: "Remove", P: e1}, {K: "RemoveAll", P: e1},
 		{K: "Open", P: d2, Flag: os.O_RDONLY, H: 0}, {K: "ReadDir", P: d1}, {K: "Chdir", P: d1}, {K: "Stat", P: d2}, {K: "WalkDir", P: d1},
 		{K: "Rename", P: leaf, P2: e1 + "/g"}, {K: "Rename", P: e1, P2: d2 + "/e"}, {K: "Mkdir", P: e1 + "/sub", Perm: 0o755},
+		// an existing target: replacing or removing somebody else's entry in a sticky directory
+		{K: "Rename", P: leaf, P2: tgt}, {K: "Rename", P: tgt, P2: d2 + "/g2"}, {K: "Remove", P: tgt}, {K: "Link", P: leaf, P2: tgt}, {K: "Rename", P: tgt, P2: e1 + "/t2"},
+		{K: "Open", P: tgt, Flag: os.O_WRONLY | os.O_TRUNC, H: 0}, {K: "RemoveAll", P: tgt},
 		{K: "Chmod", P: leaf, Perm: 0o600}, {K: "Chmod", P: d2, Perm: 0o700}, {K: "Chtimes", P: leaf, MT: 1000000000},
 		{K: "Chown", P: leaf, Uid: -1, Gid: -1}, {K: "Chown", P: leaf, Uid: 1001, Gid: 1001}, {K: "Chown", P: leaf, Uid: 1003, Gid: -1}, {K: "Lchown", P: leaf, Uid: -1, Gid: 1002},
 	}
@@ -301,11 +307,16 @@ func TestCheck(t *testing.T) {
 									o2, g2 := ownerFor(c2)
 									ol, gl := ownerFor(cl)
 									oe, ge := ownerFor(ce)
+									// the second directory is sticky in half of the configurations; the file in
+									// it belongs to the caller or to somebody else
+									spE := []uint32{0, 0o1000}[(idx/c.NShards/stride)%2]
+									ot, gt := ownerFor([]string{"owner", "other"}[(idx/c.NShards/stride/2)%2])
 									nodes := []Node{
 										{d1, "d", o1, g1, modeFor(c1, x1|4)},
 										{d2, "d", o2, g2, modeFor(c2, p2) | sp2},
 										{leaf, "f", ol, gl, modeFor(cl, pl)},
-										{e1, "d", oe, ge, modeFor(ce, 7)},
+										{e1, "d", oe, ge, modeFor(ce, 7) | spE},
+										{tgt, "f", ot, gt, 0o644},
 									}
 									// one call per configuration, rotating through the calls; every
 									// (configuration class, call) pair is met many times over the domain
@@ -331,6 +342,68 @@ func TestCheck(t *testing.T) {
 	}
 	c.Extra("configurations", fmt.Sprintf("%d cases of this shard from 3 owner classes x search bit on d1, 3 classes x 8 rwx x {plain, sticky, setgid} on d2, 3 classes x 8 rwx on the file, 2 classes on the second directory; calls rotated over %d call shapes, umask over 4 values", cases, len(ops)))
 
+	// the sticky bit alone: every directory lets everybody in (0777), so that only "sticky and
+	// neither the directory's nor the entry's owner" decides - for removing, renaming away,
+	// renaming within, and REPLACING an existing entry (the victim of a rename is protected too)
+	{
+		who := map[bool]string{true: "u1", false: "u3"}
+		n := 0
+		for _, dirMine := range []bool{true, false} {
+			for _, sticky := range []uint32{0, 0o1000} {
+				for _, victimMine := range []bool{true, false} {
+					for _, srcMine := range []bool{true, false} {
+						for ci, call := range []fsx.Op{{K: "Remove", P: tgt}, {K: "RemoveAll", P: tgt}, {K: "Rename", P: tgt, P2: d2 + "/away"}, {K: "Rename", P: tgt, P2: e1 + "/t2"},
+							{K: "Rename", P: leaf, P2: tgt}, {K: "Rename", P: e1 + "/s", P2: tgt}, {K: "Rename", P: e1 + "/s", P2: e1 + "/s2"}, {K: "Remove", P: e1 + "/s"}} {
+							n++
+							if n%c.NShards != c.Shard {
+								continue
+							}
+							nodes := []Node{{d1, "d", "u2", "u2", 0o777}, {d2, "d", "u2", "u2", 0o777}, {leaf, "f", who[srcMine], who[srcMine], 0o666},
+								{e1, "d", who[dirMine], who[dirMine], 0o777 | sticky}, {tgt, "f", who[victimMine], who[victimMine], 0o666}, {e1 + "/s", "f", who[srcMine], who[srcMine], 0o666}}
+							cs := Case{Nodes: nodes, Acts: []Act{{User: "u1", Umask: 0o022, Op: call}}}
+							if dev := runCase(c, kt, cs); dev != nil {
+								c.Report(dev, cs)
+							}
+							c.NonTrivial(vt.Hash64("sticky", fmt.Sprint(dirMine, sticky, victimMine, srcMine, ci)))
+						}
+					}
+				}
+			}
+		}
+		c.Sample("sticky", map[string]any{"cases": n, "rule": "owner of the directory x sticky x owner of the victim x owner of the source x 8 calls, all modes 0777/0666"})
+	}
+
+	// the root directory as the containing directory: a path walk checks the search bit of every
+	// directory it passes THROUGH; for an entry directly in the root the root's own bits decide
+	{
+		rootCalls := []fsx.Op{{K: "Mkdir", P: "/n", Perm: 0o755}, {K: "MkdirAll", P: "/n/m", Perm: 0o755}, {K: "WriteFile", P: "/nf", Data: "x", Perm: 0o644},
+			{K: "Open", P: "/nc", Flag: os.O_WRONLY | os.O_CREATE | os.O_EXCL, Perm: 0o644, H: 0}, {K: "Symlink", P: "w", P2: "/nl"}, {K: "Link", P: leaf, P2: "/nh"},
+			{K: "Rename", P: leaf, P2: "/nr"}, {K: "Remove", P: "/rf"}, {K: "Rename", P: "/rf", P2: "/rf2"}, {K: "Stat", P: "/rf"}, {K: "ReadDir", P: "/"}, {K: "Chdir", P: "/"}, {K: "Stat", P: "/w"}}
+		n := 0
+		for _, cr := range classes {
+			for pr := uint32(0); pr < 8; pr++ {
+				for ci, call := range rootCalls {
+					n++
+					if n%c.NShards != c.Shard {
+						continue
+					}
+					or, gr := ownerFor(cr)
+					nodes := []Node{{"/", "d", or, gr, modeFor(cr, pr)}, {"/rf", "f", "u1", "u1", 0o666},
+						{d1, "d", "u1", "u1", 0o777}, {d2, "d", "u1", "u1", 0o777}, {leaf, "f", "u1", "u1", 0o666}}
+					// (nodes are created before the root's mode is set: the root entry goes last)
+					nodes = append(nodes[1:], nodes[0])
+					cs := Case{Nodes: nodes, Acts: []Act{{User: "u1", Umask: 0o022, Op: call}}}
+					if dev := runCase(c, kt, cs); dev != nil {
+						dev.Fields["root"] = "yes"
+						c.Report(dev, cs)
+					}
+					c.NonTrivial(vt.Hash64("root", cr, fmt.Sprint(pr, ci)))
+				}
+			}
+		}
+		c.Sample("root-level", map[string]any{"root": "3 classes x 8 rwx on /", "calls": len(rootCalls)})
+	}
+
 	// random: arbitrary 12-bit modes, histories of 1-4 calls by alternating users (incl. the administrator)
 	users := []string{"u1", "u2", "u3", "root"}
 	c.Rapid("random", c.Pick(1500, 40000), func(t *rapid.T) *vt.Failure {
@@ -347,6 +420,7 @@ func TestCheck(t *testing.T) {
 			{d2, "d", usr.Draw(t, "o2"), usr.Draw(t, "g2"), mode.Draw(t, "m2")},
 			{leaf, "f", usr.Draw(t, "ol"), usr.Draw(t, "gl"), mode.Draw(t, "ml")},
 			{e1, "d", usr.Draw(t, "oe"), usr.Draw(t, "ge"), mode.Draw(t, "me")},
+			{tgt, "f", usr.Draw(t, "ot"), usr.Draw(t, "gt"), mode.Draw(t, "mt")},
 		}}
 		for n := rapid.IntRange(1, 4).Draw(t, "acts"); n > 0; n-- {
 			op := ops[rapid.IntRange(0, len(ops)-1).Draw(t, "op")]
